@@ -42,7 +42,8 @@ def run(ctx) -> None:
     ctx.rule("R2", "rewrite_lines returns normally only when every pattern was found")
     ctx.rule("R3", "iter_matches enumerates all patterns x all lines, no early exit; overlap test is same-line interval overlap")
     ctx.rule("R4", "replacement rendered from the match's own pattern with the new version; placeholders expanded from the configured version pattern")
-    ctx.rule("R5", "the config file's own current_version line is always a configured pattern")
+    ctx.rule("R5", "the config file's own current_version line is always a configured pattern (taken from a bumpver section only)")
+    ctx.rule("R6", "one file, one entry: file keys are canonical paths and equal keys are merged; merged lists are freshly built per file")
 
     for eng in ENGINES:
         fq = f"{eng}.rewrite_lines"
@@ -286,6 +287,52 @@ def run(ctx) -> None:
                   "config._parse_current_version_default_pattern: self pattern is not the current_version line with the pattern substituted",
                   f"`{unparse(r)}`", loc=dp.loc(r))
 
+    # section headers: only exact bumpver/pycalver headers switch the section flag on
+    dcfg = cfgs.get(dp.fq)
+    dpc = PathCond(dcfg)
+    on = [n for n in dcfg.nodes if n.kind == "stmt" and isinstance(n.ast, ast.Assign) and isinstance(n.ast.value, ast.Constant) and n.ast.value.value is True and n.id in dcfg.reachable()]
+    ctx.floor("R5", "section-start assignments in the self-pattern parser", len(on), 1)
+    headers = set()
+    exact = True
+    for n in on:
+        r = dpc.reach(n.id).drop_unused()
+        pos = [a for a in r.atoms if r.implies(BF.var(a))]
+        hit = False
+        for a in pos:
+            tree = ast.parse(a, mode="eval").body
+            cs = shapes.compare_shape(tree)
+            if cs and cs[0] == "==" and isinstance(cs[2], ast.Constant) and isinstance(cs[2].value, str) and cs[2].value.startswith("["):
+                headers.add(cs[2].value)
+                hit = True
+        exact = exact and hit
+    want_h = {"[pycalver]", "[bumpver]", "[tool.bumpver]"}
+    ctx.check("R5", exact and headers == want_h, "self-pattern parser: the section flag is set only by the exact headers [pycalver] / [bumpver] / [tool.bumpver]",
+              "config._parse_current_version_default_pattern: section detection is not an exact header match (a foreign section's current_version line can be picked)",
+              f"exact={exact}, headers={sorted(headers)}", loc=dp.loc(), witness={"section": "[tool.bumpversion]"})
+
+    # ---------------------------------------------------------------- R6
+    canonical_keys_rule(ctx, "R6")
+    cf = prog.function("config._compile_file_patterns")
+    ctx.visit(cf.fq)
+    g6 = cfgs.get(cf.fq)
+    ext = [n for n in g6.nodes if n.kind == "stmt" and "extend(" in n.text()]
+    sto = [n for n in g6.nodes if n.kind == "stmt" and isinstance(n.ast, ast.Assign) and isinstance(n.ast.targets[0], ast.Subscript) and unparse(n.ast.targets[0].value) == "file_patterns"]
+    ctx.check("R6", len(ext) == 1 and len(sto) == 1, "_compile_file_patterns: patterns of entries with the same key are merged (extend) instead of replaced",
+              "config._compile_file_patterns: repeated file entries replace each other", "", loc=cf.loc())
+    for prod, modname in (("config._compile_v2_file_patterns", "v2patterns"), ("config._compile_v1_file_patterns", "v1patterns")):
+        pf2 = prog.function(prod)
+        ys2 = [n for n in ast.walk(pf2.node) if isinstance(n, ast.Yield)]
+        ctx.require(ys2 and all(isinstance(y.value, ast.Tuple) and len(y.value.elts) == 2 for y in ys2), f"{prod}: yield shape changed")
+        for y2 in ys2:
+            lst = shapes.resolve_alias(pf2, y2.value.elts[1])
+            fresh = isinstance(lst, ast.Call) and prog.resolve_call(pf2, lst, count=False).name == f"{modname}.compile_patterns"
+            ctx.check("R6", fresh, f"{prod}: the yielded pattern list is a fresh compile_patterns(...) result (the consumer extends it in place)",
+                      f"{prod}: yielded pattern lists can be shared between files although _compile_file_patterns extends them in place",
+                      f"yielded `{unparse(y2.value.elts[1])}` = `{unparse(lst)[:60]}`: patterns of one entry leak into every file that shares the list", loc=pf2.loc(y2))
+        cps2 = prog.function(f"{modname}.compile_patterns")
+        rv = [n for n in walk_no_nested(cps2.node) if isinstance(n, ast.Return)]
+        ctx.check("R6", len(rv) == 1 and isinstance(rv[0].value, (ast.ListComp, ast.List)), f"{modname}.compile_patterns builds a new list", f"{modname}.compile_patterns may return a shared list", "", loc=cps2.loc())
+
 
 def all_patterns_found_rule(ctx, eng: str, rule: str) -> None:
     """rewrite_lines of `eng` returns normally only when every pattern was found."""
@@ -326,3 +373,42 @@ def all_patterns_found_rule(ctx, eng: str, rule: str) -> None:
               f"{fq}: every other outcome raises NoPatternMatch ({len(raises)} raise sites)",
               f"{fq}: incomplete match does not raise NoPatternMatch", f"raise sites: {[n.extra.get('raised') for n in raises]}", loc=fn.loc())
 
+
+def canonical_keys_rule(ctx, rule: str) -> None:
+    """File keys produced by the glob expansion are canonical: str(<pathlib glob match>); the raw configured
+    string is used only when nothing matched."""
+    prog, cfgs = ctx.prog, ctx.cfgs
+    ge = prog.function("config._iter_glob_expanded_file_patterns")
+    ctx.visit(ge.fq)
+    g = cfgs.get(ge.fq)
+    pc = PathCond(g)
+    ys = [n for n in ast.walk(ge.node) if isinstance(n, ast.Yield)]
+    ctx.floor(rule, "yields of _iter_glob_expanded_file_patterns", len(ys), 2)
+    n_glob = 0
+    glob_vars = set()
+    for n in walk_no_nested(ge.node):
+        if isinstance(n, ast.Assign) and isinstance(n.targets[0], ast.Name) and any(
+                isinstance(c, ast.Call) and isinstance(c.func, ast.Attribute) and c.func.attr in ("glob", "rglob") and isinstance(c.func.value, ast.Call)
+                and unparse(c.func.value.func).endswith("Path") for c in ast.walk(n.value)):
+            glob_vars.add(n.targets[0].id)
+    for y in ys:
+        ctx.require(isinstance(y.value, ast.Tuple) and len(y.value.elts) == 2, "glob expansion yield shape changed")
+        key = y.value.elts[0]
+        canonical = False
+        if isinstance(key, ast.Call) and unparse(key.func) == "str" and len(key.args) == 1:
+            inner = key.args[0]
+            canonical = shapes.flows_from(ge, inner, lambda e: isinstance(e, ast.Call) and isinstance(e.func, ast.Attribute) and e.func.attr in ("glob", "rglob")
+                                          and isinstance(e.func.value, ast.Call) and unparse(e.func.value.func).endswith("Path"))
+            canonical = canonical or shapes.flows_from(ge, inner, lambda e: isinstance(e, ast.Call) and unparse(e.func) in ("os.path.normpath", "pl.Path", "pathlib.Path"))
+        elif isinstance(key, ast.Call) and unparse(key.func) == "os.path.normpath":
+            canonical = True
+        if canonical:
+            n_glob += 1
+            ctx.ok(rule, f"glob expansion L{y.lineno}: key is str(<pathlib path>) - the canonical relative spelling")
+            continue
+        r = pc.reach(g.node_containing(y)).drop_unused()
+        empty_only = any(v in r.atoms and r.implies(~BF.var(v)) for v in glob_vars)
+        ctx.check(rule, empty_only, f"glob expansion L{y.lineno}: the raw configured string is used as key only when no file matched",
+                  "config._iter_glob_expanded_file_patterns: an existing file can be keyed by its raw configured spelling (e.g. './README.md'): entries for one file are not merged and the key does not equal the path git reports",
+                  f"`{unparse(y)}` reached when {r.to_dnf()}", loc=ge.loc(y), witness={"entries": ["docs/*.md", "./docs/install.md"]})
+    ctx.floor(rule, "canonical glob-match yields", n_glob, 1)
